@@ -213,7 +213,92 @@ def handle (op _opts payload : String) : String :=
   else "bad-request"
 end WX
 
+/-! ### QCSchema molecule core (JSON dictionary level).  A number is `I<n>_<d>` / `F<n>_<d>`; a value is `q:<num>`, `s:x<hex>`,
+`Q:<num>|…`, `S:x…|…`, `B:1|0|…`, `T:i.j.k|…`, `r:x<hex>` (opaque canonical text), `R:x…|…`; a file is `x<key>=<value>,…`
+(answered sorted by key); a molecule is
+`atnums;atcoords;charge|-;spinpol|-;x<title>|-;atcorenums;masses|-;bonds|-;grot|-;x<sub>=x<raw>,…;prov;x<key>=x<raw>,…`
+with `prov` = `-` | `1:x<raw>` | `m:x…|…` -/
+namespace QC
+open Iodata.Fmt.Qcs
+
+def decQ (s : String) : Q :=
+  let isI := s.startsWith "I"
+  match ((s.drop 1).toString).splitOn "_" with
+  | [n, d] => ⟨isI, decInt n, decNat d⟩
+  | _ => ⟨isI, 0, 1⟩
+def encQ (q : Q) : String :=
+  let g := Nat.gcd q.n.natAbs q.d
+  let g := if g == 0 then 1 else g
+  (if q.isInt then "I" else "F") ++ toString (q.n / (g : Int)) ++ "_" ++ toString (q.d / g)
+
+def decTriple (s : String) : Int × Int × Int :=
+  match s.splitOn "." with
+  | [a, b, c] => (decInt a, decInt b, decInt c)
+  | _ => (0, 0, 0)
+def encTriple (t : Int × Int × Int) : String := s!"{t.1}.{t.2.1}.{t.2.2}"
+
+def encV : V → String
+  | .num x => "q:" ++ encQ x
+  | .str t => "s:" ++ encStr t
+  | .nums l => "Q:" ++ encList "|" encQ l
+  | .strs l => "S:" ++ encList "|" encStr l
+  | .bools l => "B:" ++ encList "|" (fun (b : Bool) => if b then "1" else "0") l
+  | .triples l => "T:" ++ encList "|" encTriple l
+  | .raw r => "r:" ++ encStr r
+  | .raws l => "R:" ++ encList "|" encStr l
+def decV (s : String) : V :=
+  match s.splitOn ":" with
+  | [k, p] =>
+    if k == "q" then .num (decQ p) else if k == "s" then .str (decStr p) else if k == "Q" then .nums (decList "|" decQ p)
+    else if k == "S" then .strs (decList "|" decStr p) else if k == "B" then .bools (decList "|" (· == "1") p)
+    else if k == "T" then .triples (decList "|" decTriple p) else if k == "r" then .raw (decStr p) else .raws (decList "|" decStr p)
+  | _ => .raw []
+
+def encFile (f : File) : String :=
+  encList "," (fun (t : String) => t) ((f.map fun e => encStr e.1 ++ "=" ++ encV e.2).toArray.qsort (· < ·)).toList
+def decFile (s : String) : File :=
+  decList "," (fun e => match e.splitOn "=" with | [k, v] => (decStr k, decV v) | _ => ([], .raw [])) s
+
+def decOpt {α} (f : String → α) (s : String) : Option α := if s == "-" then none else some (f s)
+def encOpt {α} (f : α → String) : Option α → String
+  | none => "-"
+  | some a => f a
+def decPairs (s : String) : List (Str × Str) :=
+  decList "," (fun e => match e.splitOn "=" with | [k, v] => (decStr k, decStr v) | _ => ([], [])) s
+def encPairs (l : List (Str × Str)) : String :=
+  encList "," (fun (t : String) => t) ((l.map fun e => encStr e.1 ++ "=" ++ encStr e.2).toArray.qsort (· < ·)).toList
+def decProv (s : String) : Prov :=
+  if s == "-" then .none else if s.startsWith "1:" then .one (decStr (s.drop 2).toString) else .many (decList "|" decStr (s.drop 2).toString)
+def encProv : Prov → String
+  | .none => "-"
+  | .one r => "1:" ++ encStr r
+  | .many l => "m:" ++ encList "|" encStr l
+
+def decMol (s : String) : Mol :=
+  match s.splitOn ";" with
+  | [zs, co, ch, sp, t, core, ms, bs, g, ex, pv, un] =>
+    ⟨decList "|" decNat zs, decList "|" decQ co, decOpt decQ ch, decOpt decQ sp, decOpt decStr t, decList "|" decQ core,
+     decOpt (decList "|" decQ) ms, decOpt (decList "|" decTriple) bs, decOpt decQ g, decPairs ex, decProv pv, decPairs un⟩
+  | _ => ⟨[], [], none, none, none, [], none, none, none, [], .none, []⟩
+
+def encLoaded (x : Loaded) : String :=
+  ";".intercalate [encList "|" (fun (z : Nat) => toString z) x.atnums, encList "|" encQ x.atcoords, encQ x.charge, encQ x.spinpol,
+    encQ x.nelec, encOpt encStr x.title, encList "|" encQ x.atcorenums, encOpt (encList "|" encQ) x.atmasses,
+    encOpt (encList "|" encTriple) x.bonds, encOpt encQ x.grot, encOpt encV x.schemaVersion, encPairs x.extra, encProv x.prov,
+    encPairs x.unparsed]
+
+def handle (op _opts payload : String) : String :=
+  let T := Gen.Layouts.tables
+  if op == "dump" then "ok " ++ encFile (dump T Gen.LayoutsW.qcsW (decMol payload))
+  else if op == "load" then
+    match load T Gen.LayoutsW.qcsR Gen.LayoutsW.qcsKnown Gen.LayoutsW.qcsReshapes (decFile payload) with
+    | .ok x => "ok " ++ encLoaded x
+    | .error _ => "err LoadError"
+  else "bad-request"
+end QC
+
 def handle : List String → Option String
+  | ["fmtw", op, "json", opts, payload] => some (QC.handle op opts payload)
   | ["fmtw", op, "wfx", opts, payload] => some (WX.handle op opts payload)
   | ["fmtw", op, "wfn", opts, payload] => some (WF.handle op opts payload)
   | ["fmtw", op, "fchk", opts, payload] => some (FO.handle op opts payload)
